@@ -73,6 +73,7 @@ type Translator struct {
 	ghosts         map[string]string
 	reflectOf      map[string]*Val
 	protected      []string
+	protectedLocalTypes map[string]types.Type // element type of each protected local
 	protectedTypes map[string]types.Type
 	appendView     bool
 	metaSchema     map[string]interface{}
@@ -801,9 +802,29 @@ func (fc *fctx) enterBlock(b *ssa.BasicBlock) bool {
 }
 
 func (tr *Translator) havocAll() {
-	var prot []string
+	// protection entries: cells a satisfying cond keep their value; comps = the partitions the protected object can have
+	// cells in (nil = any partition)
+	type protEntry struct {
+		cond  string
+		comps map[string]bool
+	}
+	var protE []protEntry
+	compsOf := func(t types.Type, tag string) map[string]bool {
+		if t == nil {
+			return nil
+		}
+		m := map[string]bool{}
+		for _, l := range tr.u.leavesTag(t, tag) {
+			m[l.comp] = true
+		}
+		return m
+	}
 	for _, a := range tr.protected {
-		prot = append(prot, eq("(obase a)", a))
+		var cs map[string]bool
+		if t, ok := tr.protectedLocalTypes[a]; ok {
+			cs = compsOf(t, "cell")
+		}
+		protE = append(protE, protEntry{eq("(obase a)", a), cs})
 	}
 	// what the callee was handed: top-level pointers, slices and interface payloads, with their static pointee type where
 	// the call site shows it.  A passed pointer can only designate (a part of) a holder whose type matches.
@@ -849,13 +870,24 @@ func (tr *Translator) havocAll() {
 			}
 			// the object itself keeps all its cells: the callee was not handed a pointer to it, and model values are
 			// trees (nothing the callee can reach points back into it)
-			prot = append(prot, and(not(eq(ph.addr, "0")), eq("(obase a)", "(obase "+ph.addr+")"), notPassed("(obase "+ph.addr+")", ph.t)))
+			protE = append(protE, protEntry{and(not(eq(ph.addr, "0")), eq("(obase a)", "(obase "+ph.addr+")"), notPassed("(obase "+ph.addr+")", ph.t)), compsOf(ph.t, "cell")})
 		}
 	}
 	// TREE assumption: the holder objects a local value points to (SchemaOrBool, SchemaOrArray, the backing arrays of
 	// its slices) keep their cells across a call that was not handed a pointer to them (Go values of the model are
 	// trees: the callee received copies of sub-values, from which the holder itself cannot be reached)
+	type typedPtr struct {
+		p string
+		t types.Type
+	}
+	var ptrHolders []typedPtr
+	type heldMap struct {
+		m  string
+		mt *types.Map
+	}
+	var heldMaps []heldMap
 	var protMaps []string
+	mapKeep := map[string][][2]string{} // map component -> (guard, map) pairs: ground protection facts
 	var holders []holder
 	for _, a := range tr.protected {
 		if t, ok := tr.protectedTypes[a]; ok {
@@ -877,7 +909,7 @@ func (tr *Translator) havocAll() {
 					sv := mkVal("(select "+tr.cur.get(tr.u, l.comp)+" "+tr.u.leafAddr(a, t, l.path)+")", "Slice", l.T)
 					arr := tr.define("ha", "Int", slPart(sv, 0))
 					hb := tr.define("hab", "Int", "(obase "+arr+")")
-					prot = append(prot, and(not(eq(arr, "0")), eq("(obase a)", hb), notPassed(hb, l.T.Underlying().(*types.Slice).Elem())))
+					protE = append(protE, protEntry{and(not(eq(arr, "0")), eq("(obase a)", hb), notPassed(hb, l.T.Underlying().(*types.Slice).Elem())), compsOf(l.T.Underlying().(*types.Slice).Elem(), "elem")})
 				}
 				continue
 			}
@@ -887,6 +919,14 @@ func (tr *Translator) havocAll() {
 			if _, ok := l.T.Underlying().(*types.Map); ok {
 				m := tr.define("hm", "Int", "(select "+tr.cur.get(tr.u, l.comp)+" "+tr.u.leafAddr(a, t, l.path)+")")
 				protMaps = append(protMaps, and(not(eq(m, "0")), eq("a", m), notPassed(m, l.T)))
+				if mt, ok := l.T.Underlying().(*types.Map); ok {
+					heldMaps = append(heldMaps, heldMap{m, mt})
+					md, mv, _, _ := tr.u.mapComps(mt)
+					g := and(not(eq(m, "0")), notPassed(m, l.T))
+					for _, cn := range []string{md, mv, tr.u.mapLen(mt)} {
+						mapKeep[cn] = append(mapKeep[cn], [2]string{g, m})
+					}
+				}
 				continue
 			}
 			if _, ok := l.T.Underlying().(*types.Pointer); !ok {
@@ -896,7 +936,8 @@ func (tr *Translator) havocAll() {
 			p := tr.define("hp", "Int", "(select "+tr.cur.get(tr.u, l.comp)+" "+tr.u.leafAddr(a, t, l.path)+")")
 			hb := tr.define("hpb", "Int", "(obase "+p+")")
 			pe := l.T.Underlying().(*types.Pointer).Elem()
-			prot = append(prot, and(not(eq(p, "0")), eq("(obase a)", hb), notPassed(hb, pe)))
+			protE = append(protE, protEntry{and(not(eq(p, "0")), eq("(obase a)", hb), notPassed(hb, pe)), compsOf(pe, "cell")})
+			ptrHolders = append(ptrHolders, typedPtr{p, pe})
 			// a small union holder (SchemaOrBool, SchemaOrArray, ...): what it points to is held as well (second level)
 			if st2, _ := structOf(pe); st2 != nil && len(tr.u.leaves(pe)) <= 4 {
 				for _, l2 := range tr.u.leaves(pe) {
@@ -904,14 +945,48 @@ func (tr *Translator) havocAll() {
 					case *types.Pointer:
 						p2 := tr.define("hp2", "Int", ite(eq(p, "0"), "0", "(select "+tr.cur.get(tr.u, l2.comp)+" "+tr.u.leafAddr(p, pe, l2.path)+")"))
 						hb2 := tr.define("hpb2", "Int", "(obase "+p2+")")
-						prot = append(prot, and(not(eq(p2, "0")), eq("(obase a)", hb2), notPassed(hb2, lt.Elem())))
+						protE = append(protE, protEntry{and(not(eq(p2, "0")), eq("(obase a)", hb2), notPassed(hb2, lt.Elem())), compsOf(lt.Elem(), "cell")})
+						ptrHolders = append(ptrHolders, typedPtr{p2, lt.Elem()})
 					case *types.Slice:
 						sv := mkVal("(select "+tr.cur.get(tr.u, l2.comp)+" "+tr.u.leafAddr(p, pe, l2.path)+")", "Slice", l2.T)
 						arr := tr.define("ha2", "Int", ite(eq(p, "0"), "0", slPart(sv, 0)))
 						hb2 := tr.define("hab2", "Int", "(obase "+arr+")")
-						prot = append(prot, and(not(eq(arr, "0")), eq("(obase a)", hb2), notPassed(hb2, lt.Elem())))
+						protE = append(protE, protEntry{and(not(eq(arr, "0")), eq("(obase a)", hb2), notPassed(hb2, lt.Elem())), compsOf(lt.Elem(), "elem")})
 					}
 				}
+			}
+		}
+	}
+	// TREE: the holders of one value are distinct objects; pointers kept in the values of a held map designate objects
+	// other than the pointer holders
+	for i := 0; i < len(ptrHolders); i++ {
+		for j := i + 1; j < len(ptrHolders); j++ {
+			if types.Identical(ptrHolders[i].t, ptrHolders[j].t) && ptrHolders[i].p != ptrHolders[j].p {
+				tr.fact(implies(and(not(eq(ptrHolders[i].p, "0")), not(eq(ptrHolders[j].p, "0"))), not(eq(ptrHolders[i].p, ptrHolders[j].p))))
+			}
+		}
+	}
+	for _, hm := range heldMaps {
+		vst, _ := structOf(hm.mt.Elem())
+		if vst == nil {
+			continue
+		}
+		md, mv, ks, vs := tr.u.mapComps(hm.mt)
+		for fi := 0; fi < vst.NumFields(); fi++ {
+			pt, ok := vst.Field(fi).Type().Underlying().(*types.Pointer)
+			if !ok {
+				continue
+			}
+			var ds []string
+			fv := tr.u.fieldOf(mkVal("(select (select "+tr.cur.get(tr.u, mv)+" "+hm.m+") k)", vs, hm.mt.Elem()), fi)
+			for _, h := range ptrHolders {
+				if types.Identical(h.t, pt.Elem()) {
+					ds = append(ds, not(eq(fv.E(), h.p)))
+				}
+			}
+			if len(ds) > 0 {
+				tr.fact(fmt.Sprintf("(forall ((k %s)) (! (=> (and (not (= %s 0)) (select (select %s %s) k) (not (= %s 0))) %s) :pattern ((select (select %s %s) k))))",
+					ks, hm.m, tr.cur.get(tr.u, md), hm.m, fv.E(), and(ds...), tr.cur.get(tr.u, mv), hm.m))
 			}
 		}
 	}
@@ -924,7 +999,16 @@ func (tr *Translator) havocAll() {
 	for _, k := range tr.cur.keys() {
 		touchedSet[k] = true
 	}
-	if len(prot) > 0 {
+	protFor := func(c string) string {
+		var cs []string
+		for _, e := range protE {
+			if e.comps == nil || e.comps[c] {
+				cs = append(cs, e.cond)
+			}
+		}
+		return or(cs...)
+	}
+	if len(protE) > 0 {
 		// partitions that were only read so far may hold cells of protected locals / holders too
 		for c := range tr.u.accessed {
 			if strings.Contains(c, "$") {
@@ -932,13 +1016,12 @@ func (tr *Translator) havocAll() {
 			}
 		}
 	}
-	if len(protMaps) > 0 {
-		for c := range tr.u.accessed {
-			if strings.HasPrefix(c, "MD_") || strings.HasPrefix(c, "MV_") || strings.HasPrefix(c, "ML_") {
-				touchedSet[c] = true
-			}
+	for c := range tr.u.accessed {
+		if len(mapKeep[c]) > 0 {
+			touchedSet[c] = true
 		}
 	}
+	_ = protMaps
 	var touched []string
 	for k := range touchedSet {
 		touched = append(touched, k)
@@ -958,13 +1041,13 @@ func (tr *Translator) havocAll() {
 	{
 		// partitions first used after this point: related lazily to their value before the havoc
 		rel := epochRel{parent: oldState.Epoch}
-		if len(prot) > 0 {
-			rel.keep = or(prot...)
+		if len(protE) > 0 {
+			rel.keepFor = protFor
 		}
-		if len(protMaps) > 0 {
-			rel.keepMaps = or(protMaps...)
+		if len(mapKeep) > 0 {
+			rel.keepMapsGround = mapKeep
 		}
-		if rel.keep != "" || rel.keepMaps != "" {
+		if rel.keepFor != nil || len(rel.keepMapsGround) > 0 {
 			tr.u.epochs[tr.epoch] = rel
 		}
 	}
@@ -979,13 +1062,13 @@ func (tr *Translator) havocAll() {
 		old := oldNames[c]
 		n := tr.havocComp(c)
 		// local variables whose address never leaves the function keep their contents across any call
-		if len(prot) > 0 && strings.Contains(c, "$") {
-			cond := or(prot...)
+		if cond := protFor(c); cond != "false" && strings.Contains(c, "$") {
 			tr.factFor(n, fmt.Sprintf("(forall ((a Int)) (! (=> %s (= (select %s a) (select %s a))) :pattern ((select %s a))))", cond, n, old, n))
 		}
 		// TREE: maps held directly by a local value keep their contents
-		if len(protMaps) > 0 && (strings.HasPrefix(c, "MD_") || strings.HasPrefix(c, "MV_") || strings.HasPrefix(c, "ML_")) {
-			tr.factFor(n, fmt.Sprintf("(forall ((a Int)) (! (=> %s (= (select %s a) (select %s a))) :pattern ((select %s a))))", or(protMaps...), n, old, n))
+		for _, gm := range mapKeep[c] {
+			// a map held directly by a local value keeps its contents: one ground fact per held map
+			tr.factFor(n, implies(gm[0], eq("(select "+n+" "+gm[1]+")", "(select "+old+" "+gm[1]+")")))
 		}
 	}
 	n := tr.havocComp("ALLOC")
